@@ -194,10 +194,11 @@ def descr_tx(iface: int, op1: int, op2: int, dv: int, sv: int, mv: int, pdv: int
     Descriptor transaction with two operations on related objects (m0, its parent ch0, sibling m1, new child m9), through the
     classic (iface 0) or the entity interface (iface 1).
     op: 0 none, 1 update descriptor m0, 2 update state of m0 (classic: needs op1 == 1 before), 3 update parent ch0,
-        4 create m9 (+state) under ch0, 5 remove m1, 6 remove m0, 7 remove the parent ch0 (with its subtree).
+        4 create m9 (+state) under ch0, 5 remove m1, 6 remove m0, 7 remove the parent ch0 (with its subtree),
+        8 remove the context descriptor lc0 (it owns TWO context states).
     pre: 0 <= iface <= 1
-    pre: 0 <= op1 <= 7
-    pre: 0 <= op2 <= 7
+    pre: 0 <= op1 <= 8
+    pre: 0 <= op2 <= 8
     pre: dv >= 0
     pre: sv >= 0
     pre: mv >= 0
@@ -261,11 +262,16 @@ def descr_tx(iface: int, op1: int, op2: int, dv: int, sv: int, mv: int, pdv: int
                             tr.remove_descriptor('m0')
                         else:
                             tr.remove_entity(pm.entities.by_handle('m0'))
-                    else:
+                    elif op == 7:
                         if iface == 0:
                             tr.remove_descriptor('ch0')
                         else:
                             tr.remove_entity(pm.entities.by_handle('ch0'))
+                    else:
+                        if iface == 0:
+                            tr.remove_descriptor('lc0')
+                        else:
+                            tr.remove_entity(pm.entities.by_handle('lc0'))
                     did.append(op)
         except Exception:  # noqa: BLE001 - the API rejected a call: whatever it raised, the transaction must have no effect
             rejected = True
@@ -288,8 +294,11 @@ def descr_tx(iface: int, op1: int, op2: int, dv: int, sv: int, mv: int, pdv: int
                     orc.check(('d', h) not in post_v and ('s', h) not in post_v, 'removed-subtree-still-present')
                 orc.check(post_v[('d', 'vmd0')] > pre_v[('d', 'vmd0')], 'parent-version-not-increased-on-child-add-remove')
             # objects the transaction did not name and that are not the parent keep version and content
+            if 8 in did:
+                orc.check(('d', 'lc0') not in post_v and ('c', 'lcs0') not in post_v and ('c', 'lcs1') not in post_v,
+                          'removed-context-descriptor-or-its-states-still-present')
             named = {('d', 'm0'), ('s', 'm0'), ('d', 'ch0'), ('s', 'ch0'), ('d', 'm1'), ('s', 'm1'), ('d', 'm9'), ('s', 'm9'),
-                     ('d', 'vmd0'), ('s', 'vmd0')}
+                     ('d', 'vmd0'), ('s', 'vmd0'), ('d', 'lc0'), ('c', 'lcs0'), ('c', 'lcs1'), ('d', 'sc0'), ('s', 'sc0')}
             post_c = _content(pm)
             for key, old in pre_v.items():
                 if key not in named:
@@ -362,10 +371,11 @@ def recreate(iface: int, has_saved: bool, saved_d: int, saved_s: int, ndv: int, 
     return orc.result()
 
 
-def delete_saves_version(iface: int, dv: int, sv: int, mv: int) -> str:
+def delete_saves_version(iface: int, dv: int, sv: int, mv: int, aborted_attempt: bool) -> str:
     """
     Deleting a descriptor (and its state) remembers the last versions, so that delete -> create in two transactions yields
-    greater counters (the two-step history, both interfaces).
+    greater counters (the two-step history, both interfaces). aborted_attempt: between the two, a transaction that re-creates
+    the handle is ABORTED (it must not use up the remembered versions).
     pre: 0 <= iface <= 1
     pre: dv >= 0
     pre: sv >= 0
@@ -381,6 +391,21 @@ def delete_saves_version(iface: int, dv: int, sv: int, mv: int) -> str:
             else:
                 tr.remove_entity(pm.entities.by_handle('m0'))
         orc.check(pm.mdib_version == mv + 1, 'mdib-version-not-incremented-by-one')
+        if aborted_attempt:
+            class _Abort(Exception):
+                pass
+            try:
+                with pm.descriptor_transaction() as tr:
+                    if iface == 0:
+                        nd, ns = _new_metric(pm, 'm0')
+                        tr.add_descriptor(nd, state_container=ns)
+                    else:
+                        ent = pm.entities.new_entity(pm.data_model.pm_names.StringMetricDescriptor, 'm0', 'ch0')
+                        tr.write_entity(ent)
+                    raise _Abort
+            except _Abort:
+                pass
+            orc.check(pm.mdib_version == mv + 1, 'mdib-version-changed-without-change')
         with pm.descriptor_transaction() as tr:
             if iface == 0:
                 nd, ns = _new_metric(pm, 'm0')
